@@ -181,3 +181,93 @@ pub proof fn lemma_pow_len(base: Seq<Word>, s: Seq<Word>, j: int)
         lemma_pw_mono(n * j, s.len() as int - 1);
     }
 }
+
+// ---- pow_word_base ----------------------------------------------------------------------------------------------
+pub proof fn lemma_ipow_zero(e: int)
+    requires e >= 1,
+    ensures ipow(0, e) == 0,
+{
+    assert(ipow(0, e) == 0 * ipow(0, e - 1));
+    assert(0 * ipow(0, e - 1) == 0);
+}
+
+pub proof fn lemma_ipow_one(e: int)
+    ensures ipow(1, e) == 1,
+    decreases e
+{
+    if e > 0 { lemma_ipow_one(e - 1); assert(1 * ipow(1, e - 1) == ipow(1, e - 1)); }
+}
+
+pub proof fn lemma_pow2_ipow(n: int)
+    ensures pow2(n) == ipow(2, n),
+    decreases n
+{
+    if n > 0 { lemma_pow2_ipow(n - 1); }
+}
+
+/// (b^m)^n == b^(m*n)
+pub proof fn lemma_ipow_mul(b: int, m: int, n: int)
+    requires m >= 0, n >= 0,
+    ensures ipow(ipow(b, m), n) == ipow(b, m * n), m * n >= 0,
+    decreases n
+{
+    assert(m * n >= 0) by (nonlinear_arith) requires m >= 0, n >= 0;
+    if n > 0 {
+        lemma_ipow_mul(b, m, n - 1);
+        assert(m * n == m + m * (n - 1)) by (nonlinear_arith);
+        assert(m * (n - 1) >= 0) by (nonlinear_arith) requires m >= 0, n >= 1;
+        lemma_ipow_add(b, m, m * (n - 1));
+    } else {
+        assert(m * 0 == 0);
+    }
+}
+
+/// b >= 1, r <= w  ==>  b^r <= b^w
+pub proof fn lemma_ipow_mono(b: int, r: int, w: int)
+    requires b >= 1, 0 <= r <= w,
+    ensures 1 <= ipow(b, r) <= ipow(b, w),
+{
+    lemma_ipow_add(b, r, w - r);
+    lemma_ipow_pos(b, r);
+    lemma_ipow_pos(b, w - r);
+    let x = ipow(b, r); let y = ipow(b, w - r);
+    assert(x * y >= x) by (nonlinear_arith) requires x >= 1, y >= 1;
+}
+
+pub open spec fn pow_word_tz(w: Word) -> u32 { vstd::std_specs::bits::@W@_trailing_zeros(w) }
+
+/// a word with exactly one bit set is 2^trailing_zeros
+pub proof fn lemma_word_pow2_tz(w: @W@)
+    requires w != 0, (w & ((w - 1) as @W@)) == 0,
+    ensures vstd::std_specs::bits::@W@_trailing_zeros(w) < @BITS@,
+        w as int == pow2(vstd::std_specs::bits::@W@_trailing_zeros(w) as int),
+{
+    let r = vstd::std_specs::bits::@W@_trailing_zeros(w);
+    vstd::std_specs::bits::axiom_@W@_trailing_zeros(w);
+    let rw = r as @W@;
+    assert(r < @BITS@);
+    assert(((w >> rw) & 1) == 1);
+    assert(w == (1 as @W@) << r) by (bit_vector)
+        requires w != 0, (w & ((w - 1) as @W@)) == 0, r < @BITS@, rw == r as @W@, ((w >> rw) & 1) == 1;
+    lemma_sh_one_shl_w(r);
+}
+
+/// exponent arithmetic of the shortcut for a power-of-two base: no usize overflow, bit index within the resource limit
+pub proof fn lemma_pow2_base_exp(e: int, t: int)
+    requires 0 <= e < max_capacity(), 0 <= t < @BITS@,
+    ensures 0 <= e * t <= usize::MAX, (e * t) / @BITS@ < max_capacity(),
+{
+    assert(e * t >= 0) by (nonlinear_arith) requires e >= 0, t >= 0;
+    assert(e * t <= e * @BITS@) by (nonlinear_arith) requires e >= 0, t <= @BITS@;
+    assert((e * t) / @BITS@ <= e) by (nonlinear_arith) requires 0 <= e * t <= e * @BITS@;
+}
+
+/// the split exp = E*we + R with exp >= 2*we
+pub proof fn lemma_pow_split(e0: int, we: int, q: int, r: int)
+    requires q * we + r == e0, 0 <= r < we, e0 >= 2 * we, q >= 0,
+    ensures 2 <= q <= e0, we * q + r == e0,
+{
+    assert(q >= 2) by (nonlinear_arith) requires q * we + r == e0, 0 <= r < we, e0 >= 2 * we, q >= 0;
+    assert(q * we >= q) by (nonlinear_arith) requires q >= 0, we >= 1;
+    assert(q * we == we * q) by (nonlinear_arith);
+}
